@@ -501,9 +501,58 @@ func registerFmt(ex *Exec) {
 	discard := func(ex *Exec, st *State, args []Value, call ssa.CallInstruction) (Value, bool) {
 		return Tuple{C.BVConst(0, 64), Iface{}}, true
 	}
-	for _, n := range []string{"fmt.Fprintf", "fmt.Fprintln", "fmt.Fprint", "fmt.Printf", "fmt.Println", "fmt.Print"} {
+	for _, n := range []string{"fmt.Printf", "fmt.Println", "fmt.Print"} {
 		I[n] = discard
 	}
+	// Fprint*: formatted exactly and written through the writer's own (interpreted) Write method; writers outside
+	// the interpreted packages (os.File: stdout/stderr) swallow the text
+	fprint := func(mode int) Intrinsic {
+		return func(ex *Exec, st *State, args []Value, call ssa.CallInstruction) (Value, bool) {
+			w, _ := args[0].(Iface)
+			var s Str
+			var stt fmtStatus
+			switch mode {
+			case 0:
+				f, ok := args[1].(Str).Concrete()
+				if !ok {
+					s, stt = opaque(ex, "fmt.Fprintf(symbolic format)"), fmtOK
+				} else {
+					s, stt = ex.sprintf(st, f, args[2].(Slice))
+				}
+			case 1:
+				s, stt = ex.sprint(st, args[1].(Slice), false)
+			default:
+				s, stt = ex.sprint(st, args[1].(Slice), true)
+			}
+			if stt == fmtPending {
+				return nil, false
+			}
+			if stt == fmtOpaque {
+				s = opaque(ex, "fmt.Fprint(opaque operand)")
+			}
+			n := Tuple{C.BVConst(uint64(len(s.B)), 64), Iface{}}
+			if w.T == nil {
+				ex.goPanic(st, "nil pointer dereference (nil io.Writer)")
+			}
+			m := ex.Prog.LookupMethod(w.T, nil, "Write")
+			if m == nil || len(m.Blocks) == 0 {
+				return n, true
+			}
+			if pk := m.Package(); pk == nil || !ex.Interp(pk.Pkg.Path()) || pk.Pkg.Path() == "os" {
+				return n, true
+			}
+			arr := make(Array, len(s.B))
+			for i, b := range s.B {
+				arr[i] = b
+			}
+			id := st.alloc(&Object{V: arr})
+			ex.pendingCall = &pendingCall{Fn: m, Args: []Value{w.V, Slice{id, 0, len(arr), len(arr)}}}
+			return n, true
+		}
+	}
+	I["fmt.Fprintf"] = fprint(0)
+	I["fmt.Fprint"] = fprint(1)
+	I["fmt.Fprintln"] = fprint(2)
 }
 
 // nativeErrorStr builds an *errors.errorString with a possibly symbolic message.
